@@ -77,6 +77,13 @@ Theorem C09_single_entry_point :
   = [("randomUint32", "ext:crypto/rand.Read")] /\
   map Effects.c_func (filter (fun c => String.eqb (Effects.c_callee c) "randomUint32") Effects.eff_calls) = ["randomUint32n"; "randomUint32n"; "randomUint32n"].
 Proof. vm_compute. split; reflexivity. Qed.
+(** the buffer the bytes are read into is memory of that one activation (never a buffer another draw or goroutine can see),
+    and the functions between the source and the generators write nothing else *)
+Theorem C09_private_buffer :
+  map Effects.c_args (filter (fun c => String.eqb (Effects.c_callee c) "ext:crypto/rand.Read") Effects.eff_calls) = [[(1%nat, "fresh")]] /\
+  forallb (fun s => negb (String.eqb (Effects.s_func s) "randomUint32" || String.eqb (Effects.s_func s) "randomUint32n") ||
+                    String.eqb (Effects.s_class s) "fresh") Effects.eff_stores = true.
+Proof. vm_compute. split; reflexivity. Qed.
 Close Scope string_scope.
 
 Print Assumptions C09_words_from_bytes.
@@ -87,3 +94,4 @@ Print Assumptions C09_fail_closed.
 Print Assumptions C09_password_only_from_complete_words.
 Print Assumptions C09_only_crypto_rand_is_imported.
 Print Assumptions C09_single_entry_point.
+Print Assumptions C09_private_buffer.
